@@ -36,7 +36,9 @@ type idinfo = {
 
 let digits cap snap = List.init cap (fun i -> (snap lsr (5 * i)) land 31)
 
-let oracle cap (progs : aop list array) (final : string list) : string option =
+(* `orphans`: slots the MODEL (trace-equal so far) marks as abandoned inside the known window of remove():
+   index released, generation CAS owed (ghost `orph` of coq/model/Container.v) *)
+let oracle cap (progs : aop list array) (orphans : int list) (final : string list) : string option =
   match final with
   | snap :: len :: again :: ops ->
     let nt = Array.length progs in
@@ -97,12 +99,20 @@ let oracle cap (progs : aop list array) (final : string list) : string option =
       | _ -> err := Some ("oracle: bad token " ^ tok)) ops;
     Array.iteri (fun t r -> List.iter (not_returned t) !r) rest;
     if !err <> None then !err else begin
+      let removed_abandoned x = List.exists (fun (_, en, byrec) -> en = None && not byrec) x.rm in
+      (* classes are descriptive only; the ONLY class matched to a known finding is window-orphan: the symptom is
+         "a removed entry is still listed", the entry's remove() was abandoned, and the model says it was abandoned
+         between the index release and the generation CAS of exactly that slot *)
       let cls d = match Hashtbl.find_opt ids d with
         | Some x when x.a_abandoned -> "crashed-add"
-        | Some x when List.exists (fun (_, en, byrec) -> en = None && not byrec) x.rm -> "crashed-remove"
+        | Some x when removed_abandoned x -> "crashed-remove-other"
         | _ -> if !any_abandoned then "crash-collateral" else "none" in
-      let bad = ref None in
-      let fail c m = if !bad = None then bad := Some (Printf.sprintf "class=%s %s" c m) in
+      let cls_listed d = match Hashtbl.find_opt ids d with
+        | Some x when not x.a_abandoned && removed_abandoned x
+                      && (match x.a_idx with Some k -> List.mem k orphans | None -> false) -> "window-orphan"
+        | _ -> cls d in
+      let bads = ref [] in
+      let fail c m = bads := (c, Printf.sprintf "class=%s %s" c m) :: !bads in
       let prev = Array.make nt (List.init cap (fun _ -> 0)) in
       List.iter (fun (t, s, e, changed, dg) ->
         List.iteri (fun i d ->
@@ -115,7 +125,7 @@ let oracle cap (progs : aop list array) (final : string list) : string option =
               if x.a_start >= e then fail (cls d) (Printf.sprintf "torn: update of thread %d [%d,%d] lists id %d before its add started (%d)" t s e d x.a_start);
               (match x.a_idx with Some k when k <> i -> fail (cls d) (Printf.sprintf "torn: id %d was added to slot %d but is listed in slot %d" d k i) | _ -> ());
               List.iter (fun (_, en, _) -> match en with
-                | Some en when en < s -> fail (cls d) (Printf.sprintf "ghost: update of thread %d started at %d lists id %d (slot %d) whose removal completed at %d" t s d i en)
+                | Some en when en < s -> fail (cls_listed d) (Printf.sprintf "ghost: update of thread %d started at %d lists id %d (slot %d) whose removal completed at %d" t s d i en)
                 | _ -> ()) x.rm
           end) dg;
         Hashtbl.iter (fun d x ->
@@ -131,7 +141,7 @@ let oracle cap (progs : aop list array) (final : string list) : string option =
         if d = 31 then fail (if !any_abandoned then "crashed-add" else "none") (Printf.sprintf "exact: at quiescence slot %d lists a payload that fails its self-check" i)
         else if d <> 0 then match Hashtbl.find_opt ids d with
           | None -> fail "none" (Printf.sprintf "exact: at quiescence id %d listed, never added" d)
-          | Some x -> if List.exists (fun (_, en, _) -> en <> None) x.rm then fail (cls d) (Printf.sprintf "exact: at quiescence id %d (slot %d) is listed although its removal completed" d i)) fd;
+          | Some x -> if List.exists (fun (_, en, _) -> en <> None) x.rm then fail (cls_listed d) (Printf.sprintf "exact: at quiescence id %d (slot %d) is listed although its removal completed" d i)) fd;
       Hashtbl.iter (fun d x -> match x.a_end, x.a_idx with
         | Some _, Some k when x.rm = [] -> if List.nth fd k <> d then fail (cls d) (Printf.sprintf "exact: at quiescence id %d (slot %d) is registered but not listed (lists %d)" d k (List.nth fd k))
         | _ -> ()) ids;
@@ -139,7 +149,12 @@ let oracle cap (progs : aop list array) (final : string list) : string option =
       if not !any_abandoned then begin
         let reg = Hashtbl.fold (fun _ x n -> if x.a_end <> None && x.rm = [] then n + 1 else n) ids 0 in
         if string_of_int reg <> len then fail "none" (Printf.sprintf "exact: len() = %s but %d entries are registered" len reg) end;
-      !bad
+      (* every failure of the execution was collected: one that is not the known window symptom goes first *)
+      let all = List.rev !bads in
+      (match List.filter (fun (c, _) -> c <> "window-orphan") all, all with
+       | (_, m) :: _, _ -> Some m
+       | [], (_, m) :: _ -> Some m
+       | [], [] -> None)
     end
   | _ -> Some "oracle: F line too short"
 
@@ -190,14 +205,16 @@ let mk_sys toks =
           else Some (Printf.sprintf "model snap %s len %s again 0, impl snap %s len %s again %s" ms ml s l a)
         | _ -> Some "short F line");
       spec = (fun _rets final ->
-        match oracle capi aprogs final with
-        | Some m when String.length m >= 20 && String.sub m 0 20 = "class=crashed-remove" ->
-          (* the known crash window of remove(): report the first few per process, count the rest *)
-          if !d2_reported < 2 then begin incr d2_reported; Some m end else begin incr d2_suppressed; None end
+        let orphans = List.concat (List.init nt (fun t -> List.map int_of_n (c10_orph (snd !c (nat_of_int t))))) in
+        match oracle capi aprogs orphans final with
+        | Some m when String.length m >= 19 && String.sub m 0 19 = "class=window-orphan" ->
+          (* the known crash window of remove() and nothing else in this execution: list one per process, count the rest
+             (keeps the 200-line window of the check free for anything else) *)
+          if !d2_reported < 1 then begin incr d2_reported; Some m end else begin incr d2_suppressed; None end
         | r -> r) }
   | _ -> failwith "unknown case header"
 
 let () =
   run mk_sys (fun toks -> match toks with cap :: prog :: _ -> cap ^ " " ^ prog | _ -> "");
   Array.iteri (fun i n -> Printf.printf "OPCOUNT pc%02d %d\n" i n) pccount;
-  Printf.printf "EXTRA crashed_remove_failures_not_listed %d\n" !d2_suppressed
+  Printf.printf "EXTRA window_orphan_failures_not_listed %d\n" !d2_suppressed
